@@ -15,6 +15,8 @@ def run(ctx):
         return
     n = 50 if ctx.tier == 'quick' else 400
     specs = util.corpus(ctx.prop) + gen.gen_many(ctx.seed, n, CFG, 'c18_')
+    # nodes that have no dispatch in some steps (only windowed assets): gaps in the nodal rows
+    specs += gen.gen_many(ctx.seed, n // 2, dict(CFG, p_market=0.5, p_window=0.8, window_kinds=['inside', 'left', 'right']), 'c18g_')
     for sp in specs:
         sp['opts']['n_inj'] = 3 if ctx.tier == 'quick' else 8
     res = C.run_impl('prices', specs)
@@ -32,7 +34,11 @@ def run(ctx):
         # multipliers of nodal rows are READ FROM THE OUTPUT TABLE: y_N := -price(node, step)
         nrows = [i for i, t in enumerate(prob['cType']) if t == 'N']
         missing = False
-        for k, i in enumerate(nrows):
+        if len(nrows) != len(prob['map_nodal_restr']):
+            ctx.violation('impl-violation', {'spec': sp, 'observed': {'nodal rows': len(nrows), 'recorded (step,node) pairs': len(prob['map_nodal_restr'])},
+                                             'expected': 'one recorded (step, node) per nodal row, so that duals can be assigned to prices'},
+                          trigger={'what': 'record-mismatch'})
+        for k, i in enumerate(nrows[:len(prob['map_nodal_restr'])]):
             t, node = prob['map_nodal_restr'][k]
             col = pr.get('nodal price: ' + node)
             if col is None or col[t] is None:
